@@ -6,7 +6,8 @@ package conn
 // vsched by tools/vrewrite): pkg/transport/internal/conn (Conn.Call / Send / readLoop /
 // writeLoop / shutdown / handleRPCResponse), pkg/transport/internal/rpc (PendingTable),
 // pkg/transport/internal/sched (Scheduler: Enqueue / WaitBatchInto / NextBatchInto / Stop),
-// pkg/goroutine (spawns only). pkg/transport/wire (frame codec) and internal/core, buffer are
+// pkg/transport/internal/buffer (slab pool: sync.Pool -> deterministic vsync.Pool), pkg/goroutine
+// (spawns only). pkg/transport/wire (frame codec) and internal/core are
 // the repository's unmodified code (no goroutines, no blocking).
 //
 // Harness side: an in-memory duplex net.Conn (c26End): Read parks in vsched.WaitUntil until
@@ -86,6 +87,12 @@ type c26Spec struct {
 	// BatchWait: Limits.WriteBatchMaxWait > 0 (the write loop sleeps on the virtual clock to
 	// coalesce an isolated RPC frame with the next one).
 	BatchWait bool
+	// Sizes: total OK-response body length (status byte + payload) per request tag; the payload is
+	// the usual "resp:req-<tag>" padded with "|<tag>" repetitions, so ownership stays checkable.
+	// 0 = unpadded. Sizes around the 4096-byte slab class boundary of the read-buffer pool.
+	Sizes map[string]int
+	// MaxBody is Limits.MaxFrameBodyBytes (default 1024).
+	MaxBody int
 	// Atomics: atomic operations are scheduling points too.
 	Atomics bool
 	Bound   int
@@ -112,7 +119,39 @@ func (s c26Spec) bounds() map[string]any {
 	}
 	return map[string]any{"caller_threads": len(s.Callers), "calls": ncalls, "calls_ctx_and_peer_answer": callers, "answer_order": s.Order,
 		"stray_response": s.Stray, "reset_timer": s.ResetAt, "close_timer": s.CloseAt, "read_chunk": s.ReadChunk, "split_response_write": s.SplitWrite,
-		"max_batch_frames": s.BatchFrames, "max_queued_items": s.QueueItems, "write_coalescing_wait": s.BatchWait, "atomics_are_scheduling_points": s.Atomics}
+		"max_batch_frames": s.BatchFrames, "max_queued_items": s.QueueItems, "write_coalescing_wait": s.BatchWait, "response_body_bytes": s.sizeList(), "max_frame_body": s.MaxBody, "atomics_are_scheduling_points": s.Atomics}
+}
+
+func (s c26Spec) sizeList() []string {
+	var out []string
+	for _, cs := range s.Callers {
+		for _, c := range cs {
+			if n := s.Sizes[c.Tag]; n > 0 {
+				out = append(out, fmt.Sprintf("%s=%d", c.Tag, n))
+			}
+		}
+	}
+	return out
+}
+
+// c26Pad pads base with "|<tag>" repetitions to exactly n bytes (n <= len(base): base itself).
+func c26Pad(base, tag string, n int) string {
+	if n <= len(base) {
+		return base
+	}
+	var b strings.Builder
+	b.Grow(n + len(tag) + 1)
+	b.WriteString(base)
+	for b.Len() < n {
+		b.WriteString("|")
+		b.WriteString(tag)
+	}
+	return b.String()[:n]
+}
+
+// okText is the OK-response payload the peer sends for a request with this tag and body.
+func (s c26Spec) okText(tag, reqBody string) string {
+	return c26Pad("resp:"+reqBody, tag, s.Sizes[tag]-1)
 }
 
 func (s c26Spec) action(tag string) string {
@@ -148,7 +187,7 @@ func (s c26Spec) unmatchedResponses() bool {
 
 const (
 	c26Unit      = 10 * time.Microsecond
-	c26MaxBody   = 1024
+	c26MaxBody   = 1024 // default Limits.MaxFrameBodyBytes
 	c26StrayID   = 0x7777
 	c26StrayBody = "resp:stray"
 )
@@ -165,7 +204,8 @@ type c26CallRec struct {
 	ctx      context.Context
 	started  bool
 	returns  int
-	payload  []byte
+	payload  []byte // copy taken when Call returned
+	kept     []byte // the very slice Call returned, kept by the caller until the end of the execution
 	err      error
 	peerGot  int // request frames carrying this tag seen by the peer
 	peerSent int // responses for this call's request written by the peer
@@ -350,7 +390,7 @@ func (w *c26World) answer(end *c26End, req c26Req) bool {
 	}
 	switch act {
 	case "ok":
-		return w.respond(end, req, wire.ResponseOK, "resp:"+req.body)
+		return w.respond(end, req, wire.ResponseOK, w.spec.okText(req.tag, req.body))
 	case "err":
 		return w.respond(end, req, wire.ResponseErr, "err:"+req.body)
 	case "nf":
@@ -358,10 +398,10 @@ func (w *c26World) answer(end *c26End, req c26Req) bool {
 	case "empty":
 		return w.respond(end, req, 255, "")
 	case "dup":
-		if !w.respond(end, req, wire.ResponseOK, "resp:"+req.body) {
+		if !w.respond(end, req, wire.ResponseOK, w.spec.okText(req.tag, req.body)) {
 			return false
 		}
-		return w.respond(end, req, wire.ResponseOK, "resp:"+req.body)
+		return w.respond(end, req, wire.ResponseOK, w.spec.okText(req.tag, req.body))
 	case "never":
 		return true
 	case "late":
@@ -371,7 +411,7 @@ func (w *c26World) answer(end *c26End, req c26Req) bool {
 			defer w.wg.Done()
 			rec := w.calls[req.tag]
 			vsched.WaitUntil("late-responder", func() bool { return rec == nil || rec.returns > 0 || w.dead() })
-			w.respond(end, req, wire.ResponseOK, "resp:"+req.body)
+			w.respond(end, req, wire.ResponseOK, w.spec.okText(req.tag, req.body))
 		})
 		return true
 	case "atcancel":
@@ -384,7 +424,7 @@ func (w *c26World) answer(end *c26End, req c26Req) bool {
 			vsched.WaitUntil("atcancel-responder", func() bool {
 				return rec == nil || rec.returns > 0 || (rec.ctx != nil && rec.ctx.Err() != nil) || w.dead()
 			})
-			w.respond(end, req, wire.ResponseOK, "resp:"+req.body)
+			w.respond(end, req, wire.ResponseOK, w.spec.okText(req.tag, req.body))
 		})
 		return true
 	case "hangup":
@@ -407,7 +447,7 @@ func (w *c26World) peerLoop() {
 	end := &c26End{w: w}
 	var held []c26Req
 	for {
-		fr, err := wire.ReadFrame(end, c26MaxBody)
+		fr, err := wire.ReadFrame(end, w.spec.MaxBody)
 		if err != nil {
 			w.x.Log("peer exit: %s", c26ErrName(err))
 			return
@@ -507,9 +547,10 @@ func (w *c26World) caller(c *Conn, calls []c26CallSpec) {
 		resp, err := c.Call(ctx, Outbound{Priority: core.PriorityRPC, ServiceID: 7, Payload: core.CopyOwnedBuffer([]byte("req-" + cs.Tag))})
 		rec.returns++
 		rec.payload = append([]byte(nil), resp...)
+		rec.kept = resp
 		rec.err = err
 		if err == nil {
-			w.x.Log("call %s -> ok %q", cs.Tag, resp)
+			w.x.Log("call %s -> ok %s", cs.Tag, c26Short(string(resp)))
 		} else {
 			w.x.Log("call %s -> %s", cs.Tag, c26ErrName(err))
 		}
@@ -533,6 +574,9 @@ func c26Scenario(s c26Spec) vsched.Scenario {
 	if s.QueueItems == 0 {
 		s.QueueItems = 16
 	}
+	if s.MaxBody == 0 {
+		s.MaxBody = c26MaxBody
+	}
 	return vsched.Scenario{
 		Name: s.Name, Property: "C26", Bound: s.Bound, Horizon: 6000, Delay: true, QuietAtomics: !s.Atomics,
 		Bounds: s.bounds(),
@@ -547,8 +591,8 @@ func c26Scenario(s c26Spec) vsched.Scenario {
 					w.tags = append(w.tags, c.Tag)
 				}
 			}
-			limits := core.Limits{MaxFrameBodyBytes: c26MaxBody, MaxQueuedBytesPerConn: 1 << 16, MaxQueuedItemsPerConn: s.QueueItems,
-				MaxBatchBytes: c26MaxBody, MaxBatchFrames: s.BatchFrames}
+			limits := core.Limits{MaxFrameBodyBytes: s.MaxBody, MaxQueuedBytesPerConn: 1 << 16, MaxQueuedItemsPerConn: s.QueueItems,
+				MaxBatchBytes: s.MaxBody, MaxBatchFrames: s.BatchFrames}
 			if s.BatchWait {
 				limits.WriteBatchMaxWait = c26Unit / 2
 			}
@@ -599,6 +643,14 @@ func c26Scenario(s c26Spec) vsched.Scenario {
 
 var c26Seen = map[string]int64{}
 
+// c26Short renders a payload for messages (long padded payloads are abbreviated).
+func c26Short(t string) string {
+	if len(t) <= 48 {
+		return fmt.Sprintf("%q", t)
+	}
+	return fmt.Sprintf("%q...%q (%d bytes)", t[:24], t[len(t)-12:], len(t))
+}
+
 func c26Note(k string) { c26Seen[k]++ }
 
 func c26Judge(w *c26World) error {
@@ -609,7 +661,7 @@ func c26Judge(w *c26World) error {
 	// whose response is this payload?
 	owner := func(text, prefix string) string {
 		for _, t := range w.tags {
-			if text == prefix+"req-"+t {
+			if text == prefix+"req-"+t || (prefix == "resp:" && text == s.okText(t, "req-"+t)) {
 				return t
 			}
 		}
@@ -631,7 +683,16 @@ func c26Judge(w *c26World) error {
 		var re core.RemoteError
 		switch {
 		case rec.err == nil:
-			got := string(rec.payload)
+			// the caller kept the slice Call returned: it is judged as it reads at the END of the
+			// execution, after every other call and frame
+			got, changed := string(rec.kept), ""
+			if got != string(rec.payload) {
+				changed = fmt.Sprintf(" (when Call returned it read %s; the returned slice was overwritten afterwards)", c26Short(string(rec.payload)))
+				c26Note("kept-payload-changed-after-return")
+			}
+			if len(got) > 4000 {
+				c26Note("call-own-or-foreign-payload-over-4000-bytes")
+			}
 			switch o := owner(got, "resp:"); {
 			case o == tag:
 				if rec.peerSent == 0 {
@@ -639,13 +700,13 @@ func c26Judge(w *c26World) error {
 				}
 				c26Note("call-own-payload")
 			case o != "":
-				return bad("foreign-response", "call %s returned nil error and payload %q, which is the response to %s", tag, got, o)
+				return bad("foreign-response", "call %s returned nil error and payload %s, which is the response to %s%s", tag, c26Short(got), o, changed)
 			case got == "" && act == "empty" && rec.peerSent > 0:
 				c26Note("call-own-empty-response")
 			case got == "":
 				return bad("success-without-own-response", "call %s returned (empty payload, nil error) although the peer did not send it an empty response (peer action %s, responses written %d)", tag, act, rec.peerSent)
 			default:
-				return bad("corrupt-response", "call %s returned nil error and payload %q, which no response carried", tag, got)
+				return bad("corrupt-response", "call %s returned nil error and payload %s, which no response carried%s", tag, c26Short(got), changed)
 			}
 		case errors.As(rec.err, &re):
 			switch o := owner(re.Message, "err:"); {
@@ -746,6 +807,14 @@ func c26Specs(r *ev.R) []c26Spec {
 			Peer: map[string]string{"a1": "atcancel"}, Bound: b},
 		{Name: "rpc-deadline-answer-at-cancel-other-caller-never", Callers: [][]c26CallSpec{c26Calls(c26Timeout("a1", 1)), c26Calls(c26After(c26Bg("b1"), "a1"))},
 			Peer: map[string]string{"a1": "atcancel", "b1": "never"}, CloseAt: 2, Bound: b},
+		// response bodies around the 4096-byte slab class boundary of the read-buffer pool; every
+		// caller keeps every payload until the end of the execution
+		{Name: "rpc-big-1caller-3-sequential", Callers: [][]c26CallSpec{c26Calls(c26Bg("a1"), c26Bg("a2"), c26Bg("a3"))},
+			Sizes: map[string]int{"a1": 4097, "a2": 4097, "a3": 8192}, MaxBody: 16384, Bound: b},
+		{Name: "rpc-big-1caller-boundary-sizes", Callers: [][]c26CallSpec{c26Calls(c26Bg("a1"), c26Bg("a2"), c26Bg("a3"))},
+			Sizes: map[string]int{"a1": 4096, "a2": 4095, "a3": 4096}, MaxBody: 16384, Bound: b},
+		{Name: "rpc-big-2callers-concurrent", Callers: [][]c26CallSpec{c26Calls(c26Bg("a1")), c26Calls(c26Bg("b1"), c26Bg("b2"))},
+			Sizes: map[string]int{"a1": 8192, "b1": 4097, "b2": 4096}, MaxBody: 16384, Order: "lifo", Bound: b},
 		// three concurrent calls
 		{Name: "rpc-3calls-ok-lifo-stray", Callers: three, Order: "lifo", Stray: true, Bound: b},
 		{Name: "rpc-3callers-cancel-before-reset", Callers: [][]c26CallSpec{c26Calls(c26Cancel("a1", 1), c26Bg("a2")), c26Calls(c26Bg("b1")), c26Calls(c26Timeout("c1", 3))},
@@ -766,6 +835,9 @@ func c26Specs(r *ev.R) []c26Spec {
 				Peer: map[string]string{"b1": "garbage", "c2": "empty"}, Order: "lifo", Bound: 3},
 			c26Spec{Name: "rpc-3callers-answer-at-cancel-other-caller", Callers: [][]c26CallSpec{c26Calls(c26Cancel("a1", 1)), c26Calls(c26After(c26Bg("b1"), "a1")), c26Calls(c26Timeout("c1", 2), c26Bg("c2"))},
 				Peer: map[string]string{"a1": "atcancel", "c1": "atcancel", "b1": "err"}, Bound: 3},
+			c26Spec{Name: "rpc-big-3callers-concurrent", Callers: three, Sizes: map[string]int{"a1": 4097, "b1": 8192, "c1": 4097}, MaxBody: 16384, Order: "lifo", ReadChunk: 4096, Bound: 3},
+			c26Spec{Name: "rpc-big-answer-at-cancel-next-call", Callers: [][]c26CallSpec{c26Calls(c26Cancel("a1", 1), c26Bg("a2")), c26Calls(c26Bg("b1"))},
+				Peer: map[string]string{"a1": "atcancel"}, Sizes: map[string]int{"a1": 8192, "a2": 4097, "b1": 4097}, MaxBody: 16384, Bound: 3},
 			// every atomic operation is a scheduling point too
 			c26Spec{Name: "rpc-2calls-ok-lifo-stray-atomics", Callers: two, Order: "lifo", Stray: true, Atomics: true, Bound: 3},
 			c26Spec{Name: "rpc-cancel-late-answer-next-call-atomics", Callers: cancelLate, Peer: map[string]string{"a1": "late"}, Atomics: true, Bound: 3},
@@ -869,7 +941,7 @@ func TestVerifC26RPC(t *testing.T) {
 	r.Guard("rpc-outcomes", outcomes >= 3*explored, "sum of distinct observation vectors=%d over %d scenarios", outcomes, explored)
 	for _, n := range []string{"call-own-payload", "call-own-remote-error", "call-own-empty-response", "call-error-canceled", "call-error-deadline",
 		"call-error-stopped", "call-error-reset", "call-error-eof", "call-error-queue-full", "response-written-for-a-call-that-gave-up", "stray-response-sent",
-		"all-returned-on-live-connection", "connection-lost-before-close"} {
+		"all-returned-on-live-connection", "connection-lost-before-close", "call-own-or-foreign-payload-over-4000-bytes"} {
 		r.Guard("rpc-seen-"+n, c26Seen[n] > 0, "executions/calls exhibiting %q: %d (all: %s)", n, c26Seen[n], all)
 	}
 }
